@@ -26,6 +26,10 @@ def native_eval(rows):
     return [[int(x) for x in r["results"]] for r in res]
 
 
+def short(label):
+    return label.split(" = ")[0].replace(" ", "")
+
+
 def replay_stack(meta, ex, rep):
     """re-establish a stack-op counterexample against the native AIR: all system/stack constraints
     evaluate to zero on the row pair while the enforced cell deviates from the spec"""
@@ -62,6 +66,7 @@ def run_stack(meta, V, rng, cov):
             continue
         failing = dict(res["failing"])
         unknown = dict(res["unknown"])
+        confirmed = []
         for label in res["labels"]:
             name = f"stack:{vname}:{label}"
             if label in failing:
@@ -72,16 +77,24 @@ def run_stack(meta, V, rng, cov):
                 ok, info = replay_stack(meta, ex, rep)
                 rep["native"] = {k: v for k, v in info.items() if k not in ("cur", "next")}
                 rep["cur"], rep["next"] = [str(x) for x in info["cur"]], [str(x) for x in info["next"]]
-                path = save_replay(PROP, f"{vname}_{abs(hash(label)) % 10**6}".replace("[", "_").replace("]", ""), rep)
                 if ok:
-                    V.violation(name, path, f"{vname}: constraints all zero natively but {label} is not forced; {rep['readable']}",
-                                key=f"{vname}:{label.replace(' ', '')}")
+                    confirmed.append((label, rep))
                 else:
                     V.add(name, "inconclusive", detail=f"model does not reproduce natively: {rep['native']}")
             elif label in unknown:
                 V.add(name, "inconclusive", detail=str(unknown[label]))
             else:
                 V.add(name, "discharged")
+        if confirmed:
+            # one finding per operation variant, keyed by the exact set of cells that are not forced:
+            # a different set for the same operation is a different violation
+            cells = [short(l) for l, _ in confirmed]
+            key = f"{vname}:" + "+".join(cells)
+            safe = vname.replace("[", "_").replace("]", "")
+            path = save_replay(PROP, safe, dict(kind="air_row_pairs", property=PROP, variant=vname, cases=[r for _, r in confirmed]))
+            V.violation(f"stack:{vname}", path,
+                        f"{vname}: all transition constraints evaluate to zero natively but not forced: {cells}; e.g. {confirmed[0][1]['readable']}",
+                        key=key)
         if ("vacuity witness" in unknown) or ("axiom self-test failed" in unknown):
             V.add(f"stack:{vname}", "inconclusive", detail=str(unknown))
     # no-op-left-behind: every opcode of `Operation` is covered by a query
@@ -99,10 +112,14 @@ def main():
     if len(sys.argv) > 2 and sys.argv[1] == "--replay":
         rep = json.load(open(sys.argv[2]))
         ex = c04_stack.extract(meta)
-        ok, info = replay_stack(meta, ex, rep)
-        print(json.dumps({k: v for k, v in info.items() if k not in ("cur", "next")}))
-        print("REPRODUCED" if ok else "NOT-REPRODUCED")
-        sys.exit(1 if ok else 0)
+        cases = rep["cases"] if rep.get("kind") == "air_row_pairs" else [rep]
+        anyok = False
+        for case in cases:
+            ok, info = replay_stack(meta, ex, case)
+            anyok |= ok
+            print(case["variant"], case["label"], json.dumps({k: v for k, v in info.items() if k not in ("cur", "next")}),
+                  "REPRODUCED" if ok else "NOT-REPRODUCED")
+        sys.exit(1 if anyok else 0)
     rng = random.Random(seed())
     cov = dict(queries=0, solver_time_s=0.0)
     run_stack(meta, V, rng, cov)
